@@ -62,6 +62,8 @@ ROUTES = [('crystal', 'Crystal.pos2cart'), ('crystal', 'Crystal.unit2cart'), ('c
 
 def run(model, rep, tier):
     rep.explanation = __doc__.strip()
+    from ._common import caches_for
+    caches_for(model, rep, 'C23')
     rep.not_decided = 'numerical round-trip accuracy; that every route gives the same numbers'
     rep.rule('operator-domain', 'an operator is applied only to vectors of its domain kind; +/- combine equal kinds')
     rep.rule('return-kind', 'the value returned has the documented kind')
